@@ -511,6 +511,13 @@ def streams(ctx):
     four_builds("layout", items, "exhaustive", exhaustive=True,
                 note="comment-/blank-line-heavy texts; all sequences of <=%d pieces from a %d-piece alphabet with soft keywords" % (L, len(PIECES)))
 
+    # 3b. every directed shape of tools/shapes.py (parameter-list sections, with-items of every expression kind, rare
+    #     productions): the four builds must agree on grammar regions random generation seldom reaches
+    import shapes
+    sh = shapes.all_shapes()
+    four_builds("directed-shapes", [("m", "".join(sh[i:i + 25])) for i in range(0, len(sh), 25)], "directed",
+                note="%d directed texts in batches of 25 statements" % len(sh))
+
     # 4. invalid programs: errors must be identical (kind and offset)
     rng = ctx.rng("invalid")
     valid = _gen_valid(ctx.rng("valid"), 700 if quick else 8000)
